@@ -21,7 +21,39 @@ fn main() {
         "st-record" => st::record(&args),
         "lz-record" => lz::record(&args),
         "dom-replay" => dom::replay(&args),
+        "nest" => nest(&args),
         _ => { eprintln!("unknown command {cmd}"); 2 }
     };
     std::process::exit(code);
+}
+
+/// one deeply nested document on one entry point (run in its own process: a stack overflow kills it)
+fn nest(args: &[String]) -> i32 {
+    use util::*;
+    let depth = arg_u64(args, "--depth", 100) as usize;
+    let kind = arg(args, "--kind").unwrap_or("arr");
+    let ep = arg(args, "--ep").unwrap_or("value");
+    let closed = arg_u64(args, "--closed", 1) == 1;
+    let small_stack = arg_u64(args, "--thread", 0) == 1;
+    let mut doc = Vec::new();
+    for i in 0..depth { match kind { "arr" => doc.push(b'['), "obj" => doc.extend_from_slice(b"{\"a\":"), _ => { if i % 2 == 0 { doc.push(b'[') } else { doc.extend_from_slice(b"{\"a\":") } } } }
+    doc.push(b'1');
+    if closed { for i in (0..depth).rev() { match kind { "arr" => doc.push(b']'), "obj" => doc.push(b'}'), _ => { if i % 2 == 0 { doc.push(b']') } else { doc.push(b'}') } } } } }
+    let ep = ep.to_string();
+    let run = move || -> String {
+        let r = catch(|| match ep.as_str() {
+            "value" => sonic_rs::from_slice::<sonic_rs::Value>(&doc).map(|v| { let s = sonic_rs::to_string(&v).map(|s| s.len()).unwrap_or(0); drop(v); s }).map_err(|e| e.to_string()),
+            "lazy" => sonic_rs::from_slice::<sonic_rs::LazyValue>(&doc).map(|_| 0).map_err(|e| e.to_string()),
+            "ownedlazy" => sonic_rs::from_slice::<sonic_rs::OwnedLazyValue>(&doc).map(|_| 0).map_err(|e| e.to_string()),
+            "ignored" => sonic_rs::from_slice::<serde::de::IgnoredAny>(&doc).map(|_| 0).map_err(|e| e.to_string()),
+            "sjvalue" => sonic_rs::from_slice::<serde_json::Value>(&doc).map(|v| { std::mem::forget(v); 0 }).map_err(|e| e.to_string()),
+            "get" => sonic_rs::get(&doc[..], &["zz"]).map(|_| 0).map_err(|e| e.to_string()),
+            "array_iter" => { let mut n = 0; for x in sonic_rs::to_array_iter(&doc[..]) { if x.is_err() { break; } n += 1; } Ok(n) }
+            _ => Err("unknown ep".to_string()),
+        });
+        match r { Ok(Ok(n)) => format!("ok {n}"), Ok(Err(e)) => format!("err {}", &e[..e.len().min(60)]), Err(p) => format!("panic {p}") }
+    };
+    let out = if small_stack { std::thread::Builder::new().stack_size(2 << 20).spawn(run).unwrap().join().unwrap_or_else(|_| "panic thread".into()) } else { run() };
+    println!("{out}");
+    if out.starts_with("panic") { 3 } else { 0 }
 }
